@@ -11,6 +11,21 @@ CLAIMED = {
         "level": "Exhaustive static scan of every shipped table module and item (finite configuration space): addressability, bit-field fit, label capacity, advertised keys, naming, FILES-reply name resolution for all 895 combinations, and an item-by-item comparison with the layout pinned at 236b7b1. Geometry is folded from /repo's own accessor constructors, so a change of the constructor ladder changes what is checked.",
         "note": "Trusted: CPython ast; the pin file baseline/pack_layout.json.gz generated once from git objects of 236b7b1; assumption that a spa reports GeckoPack.name as its platform key. Known findings: 3 generated-table defects (known_findings.txt).",
     },
+    "C16": {
+        "technique": "value-set fixpoint of the counter function by abstract interpretation (exhaustive over all 12 480 reachable states x both kinds); lock-scope and call-site provenance rules over the AST",
+        "level": "Every reachable counter state of both implementations is enumerated by interpreting get_and_increment_sequence_counter from /repo's source (finite space, exhaustive): ranges 1..191 / 192..255, never 0, successor law on every transition under every interleaving of the two kinds. Lock scope of every counter access in the threaded socket; kind (True/False) of every draw site matched to the builder that consumes it.",
+        "note": "Trusted: vlib.absint on a 10-line integer function; threading.Lock gives mutual exclusion. Real thread schedules inside CPython are not explored (lock semantics assumed).",
+    },
+    "C07": {
+        "technique": "CFG path rule: no suspension point between queue-head read, can_handle test and pop (edge-dominance guards + between-set); who-may-pop/mark layering; mark-protocol typestate; guard of the re-queue",
+        "level": "Structural necessary conditions decided on every path: at each of the pop sites the popped datagram is the inspected one and check-then-act is atomic under cooperative scheduling; only the three consumers remove from a protocol queue; the discard consumer pops only what stayed marked across a yield; packet content is re-queued only under the identifier-pair comparison; all consumers are started and yield every iteration. Decides these clauses, not the head-of-line time bound.",
+        "note": "Assumes asyncio interleaves tasks only at await and asyncio.Queue is FIFO. NOT decided: the 'few polling intervals' bound under arbitrary wake-up orders (schedule/timing dependent).",
+    },
+    "C10": {
+        "technique": "acquire/release pairing over the CFG with exceptional edges at every await (crash points); task-key pairing over the resolved call graph; cancellation-handler re-raise rule; no-timed-wait-in-finally rule",
+        "level": "For every await between opening and closing an endpoint the close is reached on the exceptional edge too; every endpoint attribute is closed before it is dropped; every add_task key has a cancel reachable from reset/exit; handlers that can catch CancelledError re-raise on all paths; no timed wait sits in a finally of a task coroutine; observers are detached in disconnect. Three genuine defects found by these rules were repaired (fix: commits).",
+        "note": "NOT decided: late effects through references invisible to the analysis (e.g. a client keeping an accessor), promptness in seconds. Clean-up statements inside a finally are assumed not to raise.",
+    },
 }
 
 NOT_APPLICABLE = {f"C{n:02d}": PENDING for n in range(1, 21) if f"C{n:02d}" not in CLAIMED}
